@@ -159,6 +159,20 @@ impl<'a, 'b> Rewriter<'a, 'b> {
     fn strip_attrs(&mut self, attrs: &[Attribute]) {
         for a in attrs {
             let (lo, hi) = self.fx.rng(a.span());
+            // derive(Clone, Copy) is semantic (copy vs move): keep exactly those two
+            if a.path().is_ident("derive") {
+                let t = self.fx.text(a.span());
+                let mut keep: Vec<&str> = vec![];
+                for w in ["Clone", "Copy"] {
+                    if t.split(|c: char| !c.is_alphanumeric()).any(|x| x == w) {
+                        keep.push(w);
+                    }
+                }
+                if !keep.is_empty() {
+                    self.edit(lo, hi, format!("#[derive({})]", keep.join(", ")), "R1");
+                    continue;
+                }
+            }
             self.edit(lo, hi, String::new(), "R1");
         }
     }
